@@ -6,7 +6,8 @@ from ..core import holds, violation, unrecognised
 from ..flow import AbsInt
 from ..rules import decide_states, subscript_bounds_obligations, pure_params, Must, call_matcher
 from ..axes import chain, apply_perm, PERMUTERS
-from .c01 import x_slices
+from .c01 import x_slices, accept_rule
+from ..affine import ge
 
 ID = "C02"
 MIN_INSTANCES = 14
@@ -112,6 +113,38 @@ def shuffle_rules(repo):
         out.append((holds if rs else unrecognised)("R-RNG", fi, role, "RandomState built from the parameter", rs[0] if rs else fi.node))
     # layout
     out += layout_rule(fi, "torch.stack(X_shufs)", ["n", "N", "A", "L"])
+    # exactly n shuffles, each appended
+    role = "n shuffles are produced and all are returned"
+    loops = [n for n in fi.node.body if isinstance(n, ast.For)]
+    okn = bool(loops) and unparse(loops[-1].iter) == "range(n)" and any(isinstance(x, ast.Expr) and unparse(x.value).startswith("X_shufs.append(") for x in loops[-1].body)
+    if okn:
+        out.append(holds("R-AXES", fi, role, "for i in range(n): ... X_shufs.append(X_)", loops[-1], nontrivial=False))
+    elif loops and unparse(loops[-1].iter) != "range(n)":
+        out.append(violation("R-AXES", fi, role, "loop runs over `%s`" % unparse(loops[-1].iter), loops[-1]))
+    else:
+        out.append(unrecognised("R-AXES", fi, role, "shuffle loop not recognised"))
+    # negative end means 'counted from the end, -1 = through the last position'
+    role = "a negative end is normalised to L + 1 + end (end=-1 shuffles through the last position)"
+    norm = [x for x in walk_no_nested(fi.node) if isinstance(x, ast.If) and unparse(x.test) in ("end < 0", "end <= -1")]
+    if not norm or len(norm[0].body) != 1 or not isinstance(norm[0].body[0], ast.Assign):
+        out.append(unrecognised("REGION", fi, role, "normalisation `if end < 0: end = ...` not found"))
+    else:
+        a = norm[0].body[0]
+
+        def mk(st):
+            v = ai.lin(st, a.value)
+            exp = Lin.atom("X.shape[-1]") + 1 + Lin.atom("end")
+            if v is None:
+                return None
+            return [("normalised end >= L + 1 + end", v - exp), ("normalised end <= L + 1 + end", exp - v)]
+        out.append(decide_states(ai, fi, a, mk, "REGION", role))
+    # acceptance of every region inside the sequence, validation
+    out += accept_rule(repo, "shuffle", lambda ai_, st: [ge(Lin.atom("start"), 0), ge(Lin.atom("end"), Lin.atom("start") + 1),
+                                                       ge(Lin.atom("X.shape[-1]"), Lin.atom("end"))], rule="R-ACCEPT")
+    m = Must(fi, call_matcher({"val": lambda c: dotted(c.func) == "_validate_input" and c.args and unparse(c.args[0]) == "X"
+                               and const_value(kwarg(c, "ohe", 6)) is True}))
+    okv = all("val" in f for _, f in m.return_facts) and bool(m.return_facts)
+    out.append((holds if okv else violation)("MUST-VALIDATE", fi, "X is validated as one-hot before use", "dominates %d return(s)" % len(m.return_facts), fi.node))
     return out
 
 
@@ -202,6 +235,12 @@ def dinuc_rules(repo):
                                  "so repeated calls with the same seed differ" % (unparse(bad[0])[:40], bad[1] or "nothing"), bad[0]))
         else:
             out.append(holds("R-RNG", f, role, "%d global draw(s), each under `random_state is None`" % len(draws), f.node, nontrivial=bool(draws)))
+    role = "every example is shuffled and returned (loop over range(X.shape[0]), one append per example)"
+    okl = unparse(loop.iter) in ("range(X.shape[0])", "range(len(X))") and any(isinstance(x, ast.Expr) and unparse(x.value).startswith("X_shufs.append(") for x in loop.body)
+    if okl:
+        out.append(holds("R-AXES", fi, role, unparse(loop.iter), loop, nontrivial=False))
+    else:
+        out.append(violation("R-AXES", fi, role, "loop runs over `%s`" % unparse(loop.iter), loop))
     # validation
     role = "X is validated as a 3-d one-hot tensor before use"
     m = Must(fi, call_matcher({"val": lambda c: dotted(c.func) == "_validate_input" and c.args and unparse(c.args[0]) == "X"
@@ -251,7 +290,21 @@ def walk_rules(repo):
         out.append(violation("WALK", fs, role, "the consumption counter is never advanced", fs.node))
     else:
         out.append(unrecognised("WALK", fs, role, str(got)))
+    role = "the walk visits every shuffle, every character's successor list and every position after the first"
+    its = [unparse(l.iter) for l in walk_no_nested(fs.node) if isinstance(l, ast.For)]
+    if its == ["range(n_shuffles)", "range(n_chars)", "range(1, len(idxs))"]:
+        out.append(holds("WALK", fs, role, "; ".join(its), fs.node, nontrivial=False))
+    elif len(its) == 3:
+        out.append(violation("WALK", fs, role, "loop ranges are %s" % its, fs.node))
+    else:
+        out.append(unrecognised("WALK", fs, role, str(its)))
     ds = repo.func(E + "._dinucleotide_shuffle")
+    role = "successor lists are built for every character"
+    its = [unparse(l.iter) for l in walk_no_nested(ds.node) if isinstance(l, ast.For)]
+    if its == ["range(n_chars)"]:
+        out.append(holds("WALK", ds, role, its[0], ds.node, nontrivial=False))
+    else:
+        out.append(violation("WALK", ds, role, "loop ranges are %s" % its, ds.node))
     role = "successor lists hold, for each character, the positions following its occurrences (all but the last position)"
     src = [unparse(s) for s in walk_no_nested(ds.node) if isinstance(s, ast.Assign)]
     need = ["next_idxs_ = numpy.where(idxs[:-1] == char)[0]", "n = len(next_idxs_)", "next_idxs[char][:n] = next_idxs_ + 1", "next_idxs_counts[char] = n"]
